@@ -1,9 +1,16 @@
-(** C04 — operators bind by the documented precedence (partial: the proof that
-    the parser realises the order — soundness/completeness w.r.t. the CST
-    grammar of DESIGN.md 4.1 — is not machine-checked yet; trees are decided by
-    correspondence with the implementation and with the reference parser).
-    Statements only. *)
-From JP Require Import Base Value Lexer Parser Gen.Tables Spec.TableSpec Spec.Grammar Spec.Prec Proofs.PrattProof Proofs.GrammarProof.
+(** C04 — operators bind by the documented precedence.  The rules are stated on
+    syntax trees with no reference to a parsing algorithm (Spec/Prec.v: every
+    operand holds only tighter-binding operators at its top level;
+    Spec/Disamb.v: every operand and projection extends exactly as far as the
+    binding powers allow), for any table with the documented order; the parser
+    (model of parser.rs over the tables generated from the code on this run)
+    is proved to return only trees that respect the binding powers, and to
+    return, for every tree that the rules dictate, exactly that tree — which
+    the rules determine uniquely.  Partial: the one recorded deviation class of
+    Spec/Disamb.v is excluded for the code; search results of parenthesised forms
+    are decided by correspondence.  Statements only. *)
+From JP Require Import Base Value Lexer Parser Gen.Tables Spec.TableSpec Spec.Grammar Spec.Prec Spec.Disamb
+     Proofs.PrattProof Proofs.GrammarProof Proofs.CompleteProof.
 
 (** The binding-power table and the projection-stop threshold extracted from
     lexer.rs / parser.rs on this run have the documented order. Any change of
@@ -64,3 +71,59 @@ Theorem C04_code_tree_respects_binding_powers : forall s t, parse s = Ok t ->
   exists tokens c, tokenize s = Ok tokens /\ map snd tokens = flat c ++ [TEof] /\ erase c = t /\ wfb true c /\ prec lbp 0 c.
 Proof. exact code_parse_sound. Qed.
 Print Assumptions C04_code_tree_respects_binding_powers.
+
+(** The tree the rules dictate is the tree the code builds: for every syntax tree
+    that respects the binding powers and extends its operands and projections
+    maximally (outside the recorded deviation class), compiling its token
+    sequence yields its abstract tree (offsets aside). *)
+Theorem C04_code_builds_the_dictated_tree : forall s tl c, tokenize s = Ok tl -> map snd tl = flat c ++ [TEof] ->
+  wf c -> prec lbp 0 c -> dis lbp gen_projection_stop false TEof c -> nodotlist c ->
+  exists c', shape c' = shape c /\ parse s = Ok (erase c').
+Proof. exact code_parser_complete. Qed.
+Print Assumptions C04_code_builds_the_dictated_tree.
+
+Theorem C04_reference_builds_the_dictated_tree : forall s tl c, tokenize s = Ok tl -> map snd tl = flat c ++ [TEof] ->
+  wf c -> prec (fun t => spec_lbp (kind_of t)) 0 c -> dis (fun t => spec_lbp (kind_of t)) spec_stop false TEof c ->
+  exists c', shape c' = shape c /\ ref_parse s = Ok (erase c').
+Proof. exact ref_parser_complete. Qed.
+Print Assumptions C04_reference_builds_the_dictated_tree.
+
+(** The rules dictate one tree: for any table with the documented order, two
+    trees of the same token sequence that both respect the binding powers and
+    extend maximally have the same abstract tree. *)
+Theorem C04_dictated_tree_is_unique : forall T STOP c1 c2, table_order_ok T STOP = true ->
+  let L := fun t => T (kind_of t) in
+  wf c1 -> prec L 0 c1 -> dis L STOP false TEof c1 -> wf c2 -> prec L 0 c2 -> dis L STOP false TEof c2 ->
+  flat c1 = flat c2 -> unoff (erase c1) = unoff (erase c2).
+Proof. exact disambiguated_grammar_unambiguous. Qed.
+Print Assumptions C04_dictated_tree_is_unique.
+
+(** Non-vacuity and sharpness: [a || b && c] — the tree the rules dictate meets the
+    hypotheses, the other association does not; likewise [!a.b] and [*.a.b]. *)
+Example C04_rules_pick_one_association :
+  let a := CIdent [97] in let b := CIdent [98] in let c := CIdent [99] in
+  (prec lbp 0 (CBin BOr a (CBin BAnd b c)) /\ dis lbp gen_projection_stop false TEof (CBin BOr a (CBin BAnd b c))) /\
+  ~ dis lbp gen_projection_stop false TEof (CBin BAnd (CBin BOr a b) c) /\
+  ~ prec lbp 0 (CNot (CDot a b)) /\
+  (prec lbp 0 (CDot (CNot a) b) /\ dis lbp gen_projection_stop false TEof (CDot (CNot a) b)) /\
+  ~ dis lbp gen_projection_stop false TEof (CDot (CStarP (KDot a)) b) /\
+  (prec lbp 0 (CStarP (KDot (CDot a b))) /\ dis lbp gen_projection_stop false TEof (CStarP (KDot (CDot a b)))).
+Proof.
+  cbn zeta. unfold prec, tighter. cbn. unfold lbp. cbn.
+  repeat match goal with
+         | |- _ /\ _ => split
+         | |- True => exact I
+         | |- Forall _ _ => constructor
+         | |- _ = _ => reflexivity
+         | |- _ <> _ => discriminate
+         | |- tighter _ _ _ => unfold tighter; cbn
+         | |- _ < _ => first [lia | vm_compute; reflexivity]
+         | |- _ <= _ => first [lia | vm_compute; discriminate]
+         | |- ~ _ => let H := fresh in intros H; unfold tighter in H; cbn in H;
+                     repeat match goal with
+                            | H : _ /\ _ |- _ => destruct H
+                            | H : Forall _ (_ :: _) |- _ => inversion H; clear H; subst
+                            end; try lia;
+                     match goal with H : _ <= _ |- _ => vm_compute in H; apply H; reflexivity | H : _ < _ |- _ => vm_compute in H; discriminate H end
+         end.
+Qed.
